@@ -98,10 +98,21 @@ def simulate(plan, hist, sched=None, subst=None, calls=None, trace=False, domain
         if domains and rec is not None:
             seq = [l for l in netgen.my_leaves(b.hw) if netgen.is_clk(l)]
             cur = dict(expected=None, got=set(), changed=False)
+            caps = {}
+            out['caps'] = caps
 
             def on_event(ev):
                 kind = ev[2]
                 if kind == 'cycle':
+                    # what every StreamCapture of an enabled domain must record at this edge: the PRE-edge value of its wire
+                    for l in seq:
+                        if type(l).__name__ in ('StreamCapture', 'StreamCaptureSigned'):
+                            try:
+                                d = py4hw.getObjectClockDriver(l)
+                                if d.enable is None or d.enable.get() != 0:
+                                    caps.setdefault(id(l), [l, []])[1].append(l.x.get())
+                            except Exception:
+                                pass
                     exp = set()
                     for l in seq:
                         try:
@@ -143,6 +154,7 @@ def simulate(plan, hist, sched=None, subst=None, calls=None, trace=False, domain
                 sim.clk(n)
             out['traj'].append((netgen.wire_values(b.hw), netgen.leaf_state(b.hw)))
             out['total'].append(sim.total_clks)
+            out['built'] = b
             out['prepared'].append(hooks.pending_count())
     try:
         if trace:
@@ -450,6 +462,33 @@ def driver_actions(plan, rnd, n):
     return acts
 
 
+def judge_captures_and_purity(run, plan, r, case, stats):
+    """StreamCapture.data = the pre-edge values of its wire, one per clocked edge of its domain (what a Reg on the same wire
+    samples); lists the caller handed to Sequence blocks are the caller's: unchanged after the run."""
+    for l, exp in (r.get('caps') or {}).values():
+        stats['stream_captures_judged'] = stats.get('stream_captures_judged', 0) + 1
+        run.ev(len(exp))
+        got = list(l.data)
+        if type(l).__name__ == 'StreamCapture' and got != exp:
+            k = next((i for i, (a, b_) in enumerate(zip(got, exp)) if a != b_), min(len(got), len(exp)))
+            run.violation('capture_differs_from_pre_edge_values', dict(relation='count' if len(got) != len(exp) else 'value'), case,
+                          expected=exp[:12], observed=got[:12],
+                          what='%s recorded %r, the pre-edge values of its wire at its %d clocked edges were %r (first difference at sample %d)' % (
+                              l.getFullPath(), got[:8], len(exp), exp[:8], k))
+    b = r.get('built')
+    if b is not None:
+        for x in plan['blocks']:
+            if x['kind'] == 'Sequence' and x['id'] in b.B:
+                stats['sequence_lists_checked'] = stats.get('sequence_lists_checked', 0) + 1
+                run.ev()
+                now = list(getattr(b.B[x['id']], 'values', []))
+                if now != list(x['params']['values']):
+                    run.violation('caller_list_modified', dict(shared=bool(x['params'].get('shared')), once=bool(x['params'].get('once'))), case,
+                                  expected=x['params']['values'], observed=now,
+                                  what='the list handed to Sequence %s was %r, after the run it is %r' % (x['id'], x['params']['values'], now))
+                    break
+
+
 def check_domains(run, plan, hist, rnd, stats, meta):
     n = len(hist)
     acts = driver_actions(plan, rnd, n)
@@ -464,6 +503,7 @@ def check_domains(run, plan, hist, rnd, stats, meta):
     stats['cycles_with_a_gated_sequential_leaf'] = stats.get('cycles_with_a_gated_sequential_leaf', 0) + r['gated_leaf_cycles']
     run.ev(r['domain_cycles'])
     check_trace(run, r['events'], dict(case, mode='domains'), stats)
+    judge_captures_and_purity(run, plan, r, case, stats)
     for bad in r['domain_bad'][:2]:
         rel = 'clocked_although_gated' if bad['clocked_although_gated'] else 'not_clocked_although_enabled'
         run.violation('clocked_set_differs', dict(relation=rel, after_driver_change=bad['after_driver_change']), dict(case, observed=bad),
@@ -576,7 +616,8 @@ def post_merge(run, tier, seed):
     c = run.counters
     for k, why in (('cycles_judged', 'trace monitor judged no clock cycle'), ('settle_events', 'no settle event was observed'),
                    ('prepare_events', 'no prepare event was observed'), ('edges_compared', 'schedule monitor compared no edge'),
-                   ('split_points_compared', 'splitting monitor compared nothing'), ('zero_length_calls', 'no clk(0) call in the splittings'), ('refetch_calls', 'no splitting fetched the simulator again between calls'),
+                   ('split_points_compared', 'splitting monitor compared nothing'), ('zero_length_calls', 'no clk(0) call in the splittings'), ('refetch_calls', 'no splitting fetched the simulator again between calls'), ('stream_captures_judged', 'no StreamCapture was judged'),
+                   ('sequence_lists_checked', 'no Sequence data list was checked after a run'),
                    ('designs_with_different_freqs', 'no design with clock drivers of different frequencies'),
                    ('driver_changes', 'no clockDriver was changed on a live design'), ('cycles_with_a_gated_sequential_leaf', 'no cycle with a gated-off sequential leaf was judged'), ('multi_driver_designs', 'no design with two clock drivers was run')):
         if not c.get(k):
